@@ -462,6 +462,20 @@ func (a *Analysis) Run() {
 	}
 }
 
+// directlyCalled: some module function calls fn by name.
+func (a *Analysis) directlyCalled(fn *ssa.Function) bool {
+	for _, f := range a.P.Funcs {
+		for _, b := range f.Blocks {
+			for _, in := range b.Instrs {
+				if ci, ok := in.(ssa.CallInstruction); ok && ci.Common().StaticCallee() == fn {
+					return true
+				}
+			}
+		}
+	}
+	return false
+}
+
 // refineCallbacks recomputes extraMust; reports whether it changed.
 func (a *Analysis) refineCallbacks() bool {
 	nw := map[*ssa.Function]Set{}
@@ -494,6 +508,13 @@ func (a *Analysis) refineCallbacks() bool {
 				if !ok {
 					continue
 				}
+				if un := ir.Unwrap(cl); un != cl {
+					// a method value: refinable only if the method has no direct callers of its own
+					cl = un
+					if a.directlyCalled(cl) {
+						other[cl] = true
+					}
+				}
 				for _, ref := range *mc.Referrers() {
 					call, isCall := ref.(*ssa.Call)
 					if !isCall {
@@ -518,8 +539,9 @@ func (a *Analysis) refineCallbacks() bool {
 					m := st.must.clone()
 					if w, ok := wrap[callee]; ok {
 						// mode chosen by the constant flag
-						for i, prm := range callee.Params {
-							if prm.Name() == w.BoolParam && i < len(call.Call.Args) {
+						fi := a.wrapperFlag(callee, w)
+						for i := range callee.Params {
+							if i == fi && i < len(call.Call.Args) {
 								if k, ok := call.Call.Args[i].(*ssa.Const); ok && k.Value != nil {
 									if k.Value.String() == "true" {
 										m[w.Lock] = W
@@ -569,15 +591,31 @@ func (a *Analysis) refineCallbacks() bool {
 // verifyWrapper checks the reviewed shape: the lock is write-locked exactly on the true side of a
 // branch on the bool parameter and read-locked on its false side, and is released only by defers.
 func (a *Analysis) verifyWrapper(fn *ssa.Function, w Wrapper) string {
-	var flag *ssa.Parameter
+	// the flag is whichever bool parameter steers the lock mode (found by role; BoolParam only names it in messages)
+	why := "bool parameter " + w.BoolParam + " not found"
 	for _, p := range fn.Params {
-		if p.Name() == w.BoolParam {
-			flag = p
+		if bt, ok := p.Type().Underlying().(*types.Basic); ok && bt.Kind() == types.Bool {
+			if why = a.verifyWrapperFlag(fn, w, p); why == "" {
+				return ""
+			}
 		}
 	}
-	if flag == nil {
-		return "bool parameter " + w.BoolParam + " not found"
+	return why
+}
+
+// wrapperFlag returns the index of the parameter that verifyWrapper accepts, or -1.
+func (a *Analysis) wrapperFlag(fn *ssa.Function, w Wrapper) int {
+	for i, p := range fn.Params {
+		if bt, ok := p.Type().Underlying().(*types.Basic); ok && bt.Kind() == types.Bool {
+			if a.verifyWrapperFlag(fn, w, p) == "" {
+				return i
+			}
+		}
 	}
+	return -1
+}
+
+func (a *Analysis) verifyWrapperFlag(fn *ssa.Function, w Wrapper, flag *ssa.Parameter) string {
 	nW, nR := 0, 0
 	for _, b := range fn.Blocks {
 		for _, in := range b.Instrs {
@@ -735,10 +773,10 @@ func (a *Analysis) closureArgs(c *ssa.CallCommon, f func(*ssa.Function)) {
 		switch x := arg.(type) {
 		case *ssa.MakeClosure:
 			if fn, ok := x.Fn.(*ssa.Function); ok {
-				f(fn)
+				f(ir.Unwrap(fn))
 			}
 		case *ssa.Function:
-			f(x)
+			f(ir.Unwrap(x))
 		}
 	}
 }
